@@ -116,6 +116,8 @@ pub struct Stats {
     pub worst_resolution: Option<f64>,
     pub best_resolution: Option<f64>,
     pub sub: BTreeMap<String, Value>,
+    /// per sub-check: (cases evaluated, distinct non-trivial cases)
+    pub per_sub: BTreeMap<String, (u64, u64)>,
     pub known_printed: HashSet<String>,
     pub known_hits: BTreeMap<String, u64>,
     pub extra: Map<String, Value>,
@@ -203,6 +205,7 @@ impl Ctx {
         let h = hash_str(&format!("{}|{}", sub, ser));
         let mut st = self.stats.lock().unwrap();
         st.evaluations += 1;
+        st.per_sub.entry(sub.to_string()).or_insert((0, 0)).0 += 1;
         st.trials_total += rep.trials;
         if let Some(r) = rep.resolution {
             st.worst_resolution = Some(st.worst_resolution.map_or(r, |w| w.max(r)));
@@ -213,8 +216,8 @@ impl Ctx {
         }
         if let Some(e) = &rep.excluded {
             *st.excluded.entry(format!("{}:{}", sub, e)).or_insert(0) += 1;
-        } else if rep.nontrivial {
-            st.nontrivial.insert(h);
+        } else if rep.nontrivial && st.nontrivial.insert(h) {
+            st.per_sub.entry(sub.to_string()).or_insert((0, 0)).1 += 1;
         }
         let nsub = st.samples.iter().filter(|s| s["sub"] == sub).count();
         if allow_sample && rep.excluded.is_none() && (nsub < 2 || (nsub < 4 && rep.nontrivial && h % 7 == 0)) {
@@ -228,6 +231,9 @@ impl Ctx {
         let mut st = self.stats.lock().unwrap();
         st.evaluations += evaluations;
         st.bulk_nontrivial += distinct_nontrivial;
+        let e = st.per_sub.entry(sub.to_string()).or_insert((0, 0));
+        e.0 += evaluations;
+        e.1 += distinct_nontrivial;
         *st.classes.entry(format!("{}:bulk", sub)).or_insert(0) += evaluations;
         if st.samples.iter().filter(|s| s["sub"] == sub).count() < 3 {
             st.samples.push(json!({"sub": sub, "case": sample}));
@@ -478,6 +484,7 @@ impl Ctx {
         cov.insert("distinct_nontrivial".into(), json!(st.nontrivial.len() as u64 + st.bulk_nontrivial));
         cov.insert("rule".into(), json!(self.rule.lock().unwrap().clone()));
         cov.insert("samples".into(), Value::Array(st.samples.clone()));
+        cov.insert("per_sub_check".into(), json!(st.per_sub.iter().map(|(k, v)| (k.clone(), json!({"evaluations": v.0, "distinct_nontrivial": v.1}))).collect::<Map<String, Value>>()));
         cov.insert("classes".into(), json!(st.classes));
         cov.insert("excluded".into(), json!(st.excluded));
         if st.trials_total > 0 {
